@@ -41,7 +41,15 @@ def main (args : List String) : IO UInt32 := do
     out.putStrLn ("PURE " ++ j.algoJson)
     return 0
   | ["gen", profile, seed, count, len] =>
-    let lines := genProfile profile seed.toNat! count.toNat! len.toNat!
+    let lines := if profile = "script" ∨ profile = "scriptfault" then Id.run do
+        let mut rng : Rng := ⟨UInt64.ofNat (seed.toNat! * 1000003 + 14)⟩
+        let mut out : Array String := #[]
+        for _ in [0:count.toNat!] do
+          let (r', ls) := genScript rng len.toNat! (profile = "scriptfault")
+          rng := r'
+          out := out ++ ls
+        return out
+      else genProfile profile seed.toNat! count.toNat! len.toNat!
     let out ← IO.getStdout
     for l in lines do out.putStrLn l
     return 0
